@@ -403,6 +403,19 @@ class _MergedCircuit:
 
         return [c for c in self.components_by_index[idx] if not c_qs.isdisjoint(c.qubits)]
 
+    def can_move_right(self, c: Component) -> bool:
+        """Whether `c` can move to a later moment without crossing an operation on its keys.
+
+        Moving a component right is only valid if no later component (on other qubits) controls
+        on or measures a key `c` measures, or measures a key `c` is controlled by.
+        """
+        key_indexes = itertools.chain(
+            (self.ckey_indexes[mkey] for mkey in c.mkeys),
+            (self.mkey_indexes[mkey] for mkey in c.mkeys),
+            (self.mkey_indexes[ckey] for ckey in c.ckeys),
+        )
+        return all(not idx or idx[-1] <= c.moment_id for idx in key_indexes)
+
     def get_cirq_circuit(self, cset: ComponentSet, merged_circuit_op_tag: str) -> cirq.Circuit:
         """Returns the merged circuit.
 
@@ -530,7 +543,7 @@ def _merge_operations_impl(
                 # Case-2: left_c will merge right into `c` whenever possible.
                 for left_c in left_comp:
                     is_merged = False
-                    if c_qs.issuperset(left_c.qubits):
+                    if c_qs.issuperset(left_c.qubits) and merged_circuit.can_move_right(left_c):
                         # Make a shallow copy of the left component data before merge
                         left_c_data = copy.copy(left_c)
                         # Try to merge left_c into c
